@@ -153,9 +153,28 @@ pub fn raw_name_to_ts_field(value: String) -> String {
     if valid {
         value
     } else {
-        // `{:?}` writes a string literal, escaping quotes, backslashes and control characters
-        format!("{value:?}")
+        ts_string_literal(&value)
     }
+}
+
+/// Writes `s` as a TypeScript string literal (same as `ts_rs::string_literal`).
+pub fn ts_string_literal(s: &str) -> String {
+    // `{:?}` escapes quotes, backslashes and control characters the way JavaScript reads them,
+    // except for NUL: `\0` must not be followed by a digit, so it is written `\x00`.
+    let debug = format!("{s:?}");
+    let mut out = String::with_capacity(debug.len());
+    let mut chars = debug.chars();
+    while let Some(c) = chars.next() {
+        out.push(c);
+        if c == '\\' {
+            match chars.next() {
+                Some('0') => out.push_str("x00"),
+                Some(escaped) => out.push(escaped),
+                None => {}
+            }
+        }
+    }
+    out
 }
 
 /// Parse all `#[ts(..)]` attributes from the given slice.
